@@ -73,7 +73,15 @@ PLAYLIST_STMTS = [
     ("UPDATE PlaylistEntity SET nextEntityId = ? WHERE listId = ? AND nextEntityId = 0 AND id <> ?", 'eupd'),
     ("DELETE FROM PlaylistEntity WHERE listId = ?", 'id'),
     ("DELETE FROM PlaylistEntity WHERE listId = ? AND id = ?", 'id2'),
+    ("DELETE FROM PlaylistEntity WHERE listId = ? AND trackId = ?", 'id2'),
+    ("DELETE FROM PlaylistEntity WHERE trackId = ? AND databaseUuid = (SELECT uuid FROM Information)", 'id'),
+    ("INSERT INTO Track (path, filename, originTrackId, originDatabaseUuid) VALUES (?, ?, ?, ?)", 'tins'),
+    ("INSERT INTO Track (id, path, filename) VALUES (?, ?, ?)", 'tins_id'),
+    ("UPDATE Track SET title = ? WHERE id = ?", 'tupd'),
+    ("DELETE FROM Track WHERE id = ?", 'id'),
+    ("INSERT INTO ChangeLog (trackId) VALUES (?)", 'id'),
 ]
+READS_TAIL = ["SELECT id, path, filename, title, originTrackId, originDatabaseUuid FROM Track", "SELECT id, trackId FROM ChangeLog", "SELECT name, seq FROM sqlite_sequence WHERE seq > 0"]      # (SQLite creates a zero row as soon as a statement could insert into an AUTOINCREMENT table)
 READS = ["SELECT id, title, parentListId, isPersisted, nextListId, lastEditTime, isExplicitlyExported FROM Playlist",
          "SELECT id, listId, trackId, databaseUuid, nextEntityId, membershipReference FROM PlaylistEntity",
          "SELECT id, childListId FROM PlaylistAllChildren", "SELECT id, parentListId FROM PlaylistAllParent"]
@@ -92,6 +100,8 @@ def validate(ddl, nseq=300, seqlen=12, seed=1, verbose=False):
     rnd = random.Random(seed); nst = 0
     for sq in range(nseq):
         real = real_db(ddl); mod = ModelDB(ddl); hist = []
+        seed = ("INSERT INTO Information (id, uuid, schemaVersionMajor, schemaVersionMinor, schemaVersionPatch, currentPlayedIndiciator, lastRekordBoxLibraryImportReadCounter) VALUES (?, ?, ?, ?, ?, ?, ?)", (1, 'uuid-1', 2, 21, 2, 0, 0))
+        real.execute(*seed); mod.run(*seed)
         for step in range(seqlen):
             sql, shape = rnd.choice(PLAYLIST_STMTS)
             ids = lambda: rnd.choice([0, 1, 2, 3, 4, 5, -1, -2, -3])
@@ -103,6 +113,9 @@ def validate(ddl, nseq=300, seqlen=12, seed=1, verbose=False):
             elif shape == 'upd2': p = (rnd.choice('abcd'), rnd.choice([0, 1]), 'now', 1, rnd.choice([1, 2, 3, 4]))
             elif shape == 'eins': p = (rnd.choice([1, 2, 3]), rnd.choice([1, 2, 3, 4]), 'uuid', 0, 0)
             elif shape == 'eupd': p = (ids(), rnd.choice([1, 2, 3]), ids())
+            elif shape == 'tins': p = ('p%d' % rnd.randrange(4), 'f', rnd.choice([None, 0, 7]), rnd.choice([None, '', 'other']))
+            elif shape == 'tins_id': p = (rnd.choice([1, 2, 3, 4, 9]), 'q%d' % rnd.randrange(4), 'f')
+            elif shape == 'tupd': p = (rnd.choice('xy'), rnd.choice([1, 2, 3, 4]))
             hist.append((sql, p)); nst += 1
             # the recursive views do not terminate on a cycle in the real SQLite: stop the sequence before any statement could reach them
             pl = real.execute(READS[0]).fetchall()
@@ -116,7 +129,7 @@ def validate(ddl, nseq=300, seqlen=12, seed=1, verbose=False):
             if rr != mr: return nst, sq, ('status', hist, rr, mr)
             if rr == 'nonterm': break
             cyc = has_cycle(real.execute(READS[0]).fetchall())
-            for rd in READS[:2] if cyc else READS:
+            for rd in (READS[:2] if cyc else READS) + READS_TAIL:
                 a = sorted(real.execute(rd).fetchall(), key=repr); b = sorted(mod.run(rd), key=repr)
                 if a != b: return nst, sq, ('contents', hist, rd, a, b)
             if cyc: break
